@@ -173,31 +173,65 @@ def _node_fresh(ctx, pt) -> list[Inst]:
     language graph / model / another node.  Otherwise all assets of one type - and every graph generated from
     the same language graph - hold the very same dictionaries (a change through one node shows in all)."""
     prog = ctx.prog
-    f = prog.func('AttackGraph._generate_graph')
-    cfg = ctx.cfg(f)
-    rel = f.module.relpath
+    f0 = prog.func('AttackGraph._generate_graph')
     insts = []
     props = ('C16', 'C14', 'C02')
-    stores = []      # (field, value expr, cfg node)
-    ctor_names = set()
-    for n in own_nodes(f.node):
-        if isinstance(n, ast.Call) and isinstance(n.func, ast.Name) and n.func.id == 'AttackGraphNode':
-            for kw in n.keywords:
-                if kw.arg in MUTABLE_NODE_FIELDS:
-                    stores.append((kw.arg, kw.value, cfg.owner(n)))
-        if isinstance(n, ast.Assign) and len(n.targets) == 1 and isinstance(n.targets[0], ast.Name) \
-                and isinstance(n.value, ast.Call) and isinstance(n.value.func, ast.Name) \
-                and n.value.func.id == 'AttackGraphNode':
-            ctor_names.add(n.targets[0].id)
-    for n in own_nodes(f.node):
-        if isinstance(n, ast.Assign):
-            for tg in n.targets:
-                if isinstance(tg, ast.Attribute) and isinstance(tg.value, ast.Name) and tg.value.id in ctor_names \
-                        and tg.attr in MUTABLE_NODE_FIELDS:
-                    stores.append((tg.attr, n.value, cfg.node_of(n)))
+
+    def collect(g):
+        cfg_ = ctx.cfg(g)
+        st, ctor_names = [], set()
+        ctor = {'AttackGraphNode'}
+        if g.cls is not None and g.cls.name == 'AttackGraphNode' and g.params and g.params[0] == 'cls':
+            ctor.add('cls')
+        for n in own_nodes(g.node):
+            if isinstance(n, ast.Call) and isinstance(n.func, ast.Name) and n.func.id in ctor:
+                for kw in n.keywords:
+                    if kw.arg in MUTABLE_NODE_FIELDS:
+                        st.append((kw.arg, kw.value, cfg_.owner(n)))
+            if isinstance(n, ast.Assign) and len(n.targets) == 1 and isinstance(n.targets[0], ast.Name) \
+                    and isinstance(n.value, ast.Call) and isinstance(n.value.func, ast.Name) \
+                    and n.value.func.id in ctor:
+                ctor_names.add(n.targets[0].id)
+        for n in own_nodes(g.node):
+            if isinstance(n, ast.Assign):
+                for tg in n.targets:
+                    if isinstance(tg, ast.Attribute) and isinstance(tg.value, ast.Name) and tg.value.id in ctor_names \
+                            and tg.attr in MUTABLE_NODE_FIELDS:
+                        st.append((tg.attr, n.value, cfg_.node_of(n)))
+        return st
+    f = f0
+    stores = collect(f0)
     if not stores:
-        raise AnalysisError('NODEFRESH: no AttackGraphNode construction with ttc / tags / attributes found in '
-                            'AttackGraph._generate_graph')
+        # the construction was moved out of _generate_graph (a generator method, a classmethod of the node class):
+        # look at what _generate_graph reaches; what the values are made from is then seen through parameters only
+        for g in ctx.an.reachable([f0]).values():
+            if g is f0 or g.module.generated or 'attackgraph' not in g.module.relpath:
+                continue
+            st = collect(g)
+            for field, val, node in st:
+                construct = f'NODEFRESH: node.{field} is created for this node'
+                tags = _Prov(ctx, pt, g).of(val, node)
+                # what hangs off a PARAMETER of the helper is whatever the caller passed (the fresh per-asset table on
+                # today's tree): only a field of self / a global is known to be shared
+                heap = sorted(t[1] for t in tags if t[0] == 'heap' and t[1].split('.')[0].split('[')[0] not in g.params[1:]
+                              and t[1].split('.')[0].split('[')[0] not in (g.params[:1] if g.self_name is None else []))
+                if heap:
+                    insts.append(Inst(
+                        RULE, g.short, construct, 'violation',
+                        msg=(f"node.{field} = '{stmt_text(val, 50)}' is the very object held in '{heap[0]}' (no copy on "
+                             f"the way): every node generated for that asset type shares one mutable {field} object"),
+                        file=g.module.relpath, line=val.lineno, props=props))
+                else:
+                    insts.append(Inst(RULE, g.short, construct, 'unproven',
+                                      msg=f'node built in {g.short}; origin of the value not followed across the call',
+                                      file=g.module.relpath, line=val.lineno, props=props))
+        if not insts:
+            insts.append(Inst(RULE, f0.short, 'NODEFRESH: node construction', 'unproven',
+                              msg='no AttackGraphNode construction with ttc / tags / attributes found in or below '
+                                  '_generate_graph', file=f0.module.relpath, line=f0.node.lineno, props=props))
+        return insts
+    cfg = ctx.cfg(f)
+    rel = f.module.relpath
     for field, val, node in stores:
         construct = f'NODEFRESH: node.{field} is created for this node'
         pv = _Prov(ctx, pt, f)
